@@ -114,7 +114,13 @@ func vC15System(rc *runCtx) {
 	top := filepath.Join(src, "tree")
 	files, dirs := vGenTree(rc, top, n, maxSize)
 	paths := []string{top}
-	if !many && tp.Bool("second", 300) {
+	if !many && tp.Bool("second.samename", 150) {
+		// a second tree with the same name from another parent: two names at the destination, two intact trees
+		t2 := filepath.Join(src, "elsewhere", "tree")
+		f2, d2 := vGenTree(rc, t2, 2+tp.Draw("entries2s", 8), maxSize)
+		files, dirs = files+f2, dirs+d2
+		paths = append(paths, t2)
+	} else if !many && tp.Bool("second", 300) {
 		t2 := filepath.Join(src, "other")
 		f2, d2 := vGenTree(rc, t2, 2+tp.Draw("entries2", 8), maxSize)
 		files, dirs = files+f2, dirs+d2
@@ -144,6 +150,42 @@ func vC15System(rc *runCtx) {
 		defer func() { rc.w.Disk = nil }()
 		rc.res.Scenario["slow_create"] = per.String()
 	}
+	// a file may vanish between the scan and its turn in the stream: an error, never a tree in which some path
+	// holds another entry's bytes
+	var vanished string
+	orig := map[string][]byte{}
+	if !many && tp.Bool("c15.vanish", 220) {
+		var cands []string
+		filepath.Walk(top, func(p string, info os.FileInfo, err error) error {
+			if err == nil && info.Mode().IsRegular() {
+				b, _ := os.ReadFile(p)
+				rel, _ := filepath.Rel(src, p)
+				orig[rel] = b
+				if info.Size() > 0 {
+					cands = append(cands, p)
+				}
+			}
+			return nil
+		})
+		if len(cands) > 1 {
+			victim := cands[1+tp.Draw("c15.vanishwhich", len(cands)-1)]
+			l := x.downLast()
+			if cfg.upload {
+				l = x.up[0]
+			}
+			prevOn := l.OnWrite
+			l.OnWrite = func(ll *verifsim.Link, d []byte) {
+				if prevOn != nil {
+					prevOn(ll, d)
+				}
+				if vanished == "" && bytes.HasPrefix(d, []byte("#NAME:")) {
+					vanished = victim
+					os.Remove(victim)
+					rc.fault("source-file-vanished-after-scan")
+				}
+			}
+		}
+	}
 	x.start()
 	maxFD := fd0
 	rc.w.Run(func() bool {
@@ -166,6 +208,32 @@ func vC15System(rc *runCtx) {
 		}
 	}
 	rc.res.Scenario["archived"] = archived
+	if vanished != "" {
+		// whatever the outcome: no path of the received tree holds bytes that are not the beginning of that path's
+		// own source file
+		rc.res.Scenario["vanished"] = vanished
+		vCheckFidelity(rc, x, rep, before, false)
+		if rc.res.Class != "ok" {
+			return
+		}
+		filepath.Walk(dst, func(p string, info os.FileInfo, err error) error {
+			if err != nil || !info.Mode().IsRegular() || rc.res.Class != "ok" {
+				return nil
+			}
+			rel, _ := filepath.Rel(dst, p)
+			want, ok := orig[rel]
+			got, _ := os.ReadFile(p)
+			if !ok {
+				return nil // a fresh name (tree.0/...): not judged here
+			}
+			if !bytes.HasPrefix(want, got) {
+				rc.violate("content", "C15:shifted-after-vanished-file", "after %q vanished between scan and read, %q at the destination holds %d bytes that are not the beginning of its own source (%d bytes): the entries behind the vanished one were shifted", vanished, rel, len(got), len(want))
+			}
+			return nil
+		})
+		rc.res.Nontrivial = rc.res.Class == "ok"
+		return
+	}
 	vCheckFidelity(rc, x, rep, before, true)
 	if rc.res.Class == "violation" && strings.Contains(rc.res.Msg, "too many open files") {
 		rc.res.Kind = "fd-exhaustion"
